@@ -79,8 +79,8 @@ def pImplCtor : P (Except String ImplParse) := do
   if t == "cerr" then do let c ← P.tok; pure (.error c)
   else if t == "cok" then do
     let S ← P.nat; let A ← P.nat; let O ← P.nat; let d ← P.x
-    let T ← P.xs; let W ← P.xs
-    pure (.ok ⟨S, A, O, d, T, [], W⟩)
+    let T ← P.xs; let W ← P.xs; let ER ← P.xs
+    pure (.ok ⟨S, A, O, d, T, ER, W⟩)
   else P.fail
 
 def tol : Rat := AITB.Gen.equalToleranceSmall
@@ -104,6 +104,17 @@ def rowsValid (flat : List XRat) (nrows D3 : Nat) : Bool × Bool :=
 def specTable (stmts : List (Char × Stmt)) (c : Char) (D1 D2 D3 : Nat) : List XRat :=
   let ss := (stmts.filter (·.1 == c)).map (·.2)
   (List.range D1).flatMap fun d1 => (List.range D2).flatMap fun a => (List.range D3).map fun d3 => specAt ss D1 D2 D3 d1 a d3
+
+/-- expected rewards Σ_s1 R[s][a][s1]·T[s][a][s1] per (s,a) row, from flat tables; `none` if a value is not finite -/
+def expRewards (T R : List XRat) (nrows S : Nat) : Option (List Rat) :=
+  let toQ : XRat → Option Rat := fun x => match x with | .fin q => some q | _ => none
+  ((chunks S nrows T).zip (chunks S nrows R)).mapM fun (tr, rr) => do
+    let ts ← tr.mapM toQ
+    let rs ← rr.mapM toQ
+    pure ((ts.zip rs).foldl (fun acc p => acc + p.1 * p.2) 0)
+
+def closeList (a : List Rat) (b : List XRat) : Bool :=
+  a.length == b.length && (a.zip b).all fun (x, y) => match y with | .fin q => closeQ (1 / 1000000000) x q | _ => false
 
 def containsHex : Str → Bool
   | '0' :: x :: r => (x == 'x' || x == 'X') || containsHex (x :: r)
@@ -162,6 +173,10 @@ def parseCmd : P String := do
             let v := v.failIf (!dOK || dNan) s!"parseCassandra invalid_discount_accepted {i.disc}"
             let v := v.failIf (m.S != i.S || m.A != i.A || (isP && m.O != i.O) || m.disc != i.disc || m.T != i.T || (isP && m.W != i.W))
                       s!"parseCassandra model_differs_from_parse T={m.T} vs {i.T}"
+            -- the model stores expected rewards: Σ_s1 R[s][a][s1]·T[s][a][s1]
+            let v := match expRewards i.T i.R (i.S * i.A) i.S with
+              | some er => v.failIf (!(closeList er m.R)) s!"parseCassandra model_differs_from_parse R={m.R} expected={er.map ratStr}"
+              | none => v
             (v, false)
         | .error c =>
             let v := v.failIf (valid && dOK) s!"parseCassandra valid_model_rejected {c}"
